@@ -10,25 +10,47 @@ ASSUMPTIONS = ["the tables the theorems are about are regenerated from the worki
                "that the class guards behave as their AST reads is checked by constructing all 36 (class, type) pairs"]
 
 
-def _mk(cls_name, t):
+def _mk(cls_name, t, v=None):
+    """an instance of the class for type t; `v` (a dict) overrides the fields' values, all taken from the fields' own domains"""
     import aioswitcher.device as d
+    v = v or {}
     cls = getattr(d, cls_name)
-    base = (t, d.DeviceState.ON, "ab1234", "18", "1.2.3.4", "AA:BB:CC:DD:EE:FF", "name")
+    base = (t, d.DeviceState[v.get("state", "ON")], v.get("id", "ab1234"), v.get("key", "18"), v.get("ip", "1.2.3.4"),
+            v.get("mac", "AA:BB:CC:DD:EE:FF"), v.get("name", "name"))
     if cls_name == "SwitcherPowerPlug":
-        return cls(*base, 0, 0.0)
+        return cls(*base, v.get("power", 0), v.get("current", 0.0))
     if cls_name == "SwitcherWaterHeater":
-        return cls(*base, 0, 0.0, "00:00:00", "01:00:00")
+        return cls(*base, v.get("power", 0), v.get("current", 0.0), v.get("remaining", "00:00:00"), v.get("auto", "01:00:00"))
     if cls_name == "SwitcherThermostat":
-        return cls(*base, d.ThermostatMode.COOL, 24.0, 24, d.ThermostatFanLevel.LOW, d.ThermostatSwing.OFF, "ELEC7001")
-    return cls(*base, 0, d.ShutterDirection.SHUTTER_STOP)
+        return cls(*base, d.ThermostatMode[v.get("mode", "COOL")], v.get("temp", 24.0), v.get("target", 24),
+                   d.ThermostatFanLevel[v.get("fan", "LOW")], d.ThermostatSwing[v.get("swing", "OFF")], v.get("remote", "ELEC7001"))
+    return cls(*base, v.get("position", 0), d.ShutterDirection[v.get("direction", "SHUTTER_STOP")])
+
+
+def gen_variant(rng):
+    """values for every field of every class, from the whole of each field's domain (boundaries included): a guard looks at the type,
+    never at these"""
+    import aioswitcher.device as d
+    return {"state": rng.choice(["ON", "OFF"]), "id": rng.randbytes(3).hex(), "key": "%02x" % rng.randrange(256),
+            "ip": ".".join(str(rng.choice([0, 1, 10, 127, 192, 255, rng.randrange(256)])) for _ in range(4)),
+            "mac": ":".join("%02X" % rng.choice([0, 255, rng.randrange(256)]) for _ in range(6)),
+            "name": rng.choice(["", "a", "Boiler", "\u05d3\u05d5\u05d3", "x" * 32, "\u05d0" * 16]),
+            "power": rng.choice([0, 1, 2300, 3520, 65535, rng.randrange(65536)]),
+            "current": rng.choice([0.0, 0.1, 10.5, 16.0, 297.9]),
+            "remaining": rng.choice(["00:00:00", "00:00:01", "01:00:00", "23:59:59"]),
+            "auto": rng.choice(["00:00:00", "01:00:00", "23:59:00", "23:59:59"]),
+            "mode": rng.choice([m.name for m in d.ThermostatMode]), "temp": rng.choice([0.0, 0.1, 24.5, 99.9, 6553.5]),
+            "target": rng.choice([0, 16, 24, 30, 255, rng.randrange(256)]), "fan": rng.choice([m.name for m in d.ThermostatFanLevel]),
+            "swing": rng.choice([m.name for m in d.ThermostatSwing]), "remote": rng.choice(["ELEC7001", "ELEC7022", "", "DLK10"]),
+            "position": rng.choice([0, 1, 50, 99, 100, rng.randrange(101)]), "direction": rng.choice([m.name for m in d.ShutterDirection])}
 
 
 def _impl_construct(a):
     import aioswitcher.device as d
-    cls_name, tname = a
+    cls_name, tname = a[0], a[1]
     t = d.DeviceType[tname]
     try:
-        o = _mk(cls_name, t)
+        o = _mk(cls_name, t, a[2] if len(a) > 2 else None)
         assert o.device_type is t
         return "1"
     except ValueError:
@@ -166,9 +188,10 @@ def _traffic(ctx):
     pool = B.encode_all([B.gen_device(rng, f) for f in ("t1", "t1", "shutter", "shutter", "thermo") for _ in range(3)])
     try:
         wk = BH.default_ports()
-        if len(wk) == 4 and all(BH.bindable(p) for p in wk):
-            for sq in c07.wellknown_sequences(rng, pool, 2):
-                c07._impl(sq)
+        with BH.WellKnownPorts(wait=20.0) as mine:
+            if mine and len(wk) == 4 and all(BH.bindable(p) for p in wk):
+                for sq in c07.wellknown_sequences(rng, pool, 2):
+                    c07._impl(sq)
         for _ in range(3):
             c07._impl(c07.gen_sequence(rng, pool))
     except Exception as e:  # noqa
@@ -227,6 +250,9 @@ def streams(ctx):
         ctx.rng.shuffle(q)
         again += q
     ctx.run_cases(CONSTRUCT, "constructions-in-other-orders", again, exhaustive=False, sample_every=97)
+    # ... nor on what the other fields hold: the 36 pairs with every other field drawn from the whole of its domain
+    varied = [(c, t, gen_variant(ctx.rng)) for _ in range(ctx.n(25, 400)) for c in classes for t in types]
+    ctx.run_cases(CONSTRUCT, "constructions-with-the-other-fields-over-their-domains", varied, exhaustive=False, sample_every=211)
     cats = [c.name for c in d.DeviceCategory]
     ctx.run_cases(EXTRA, "constructions-with-extra-arguments",
                   [(c, t, how, cat) for c in classes for t in types for how in ("positional", "keyword", "replace", "replace+category") for cat in cats],
@@ -234,9 +260,9 @@ def streams(ctx):
     ctx.run_cases(PORTS, "ports-of-every-type", types, exhaustive=True)
     # the tables and guards are facts about the library, not about what it has been doing: look again after it has handled traffic -
     # broadcasts of every family through a bridge on the well-known and on other ports, and datagrams whose decoding fails half-way
-    _traffic(ctx)
     ctx.run_cases(HANDED, "objects-the-bridge-hands-out-for-one-id-under-changing-families", _handed_out_cases(ctx.rng, ctx.n(40, 600)),
                   exhaustive=False, sample_every=13)
+    _traffic(ctx)      # last before the second look: what a failed decoding leaves behind must still be there (nothing good parsed after it)
     ctx.run_cases(CONSTRUCT, "constructions-after-traffic", pairs, exhaustive=True, sample_every=13)
     ctx.run_cases(PORTS, "ports-after-traffic", types, exhaustive=True)
     ctx.run_cases(CODES, "model-codes-after-traffic", [1], exhaustive=True)
